@@ -71,6 +71,7 @@ struct Sample {
     enum Kind { CHECKED_VALID, TIP_CHANGE, CALL_END } kind{CALL_END};
     uint256 tip;   //!< real active tip (null hash: no tip yet)
     uint256 block; //!< CHECKED_VALID: the block that ConnectTip is about to connect
+    int64_t now{0}; //!< node clock (mock time) when the sample was taken
 };
 
 class Recorder final : public CValidationInterface
@@ -96,7 +97,7 @@ public:
     {
         // cs_main is taken first (recursive), so that the order of `samples` is the order of the tip changes
         LOCK(cs_main);
-        Sample s{k, RealTip(), block};
+        Sample s{k, RealTip(), block, TicksSinceEpoch<std::chrono::seconds>(Now<NodeSeconds>())};
         std::lock_guard<std::mutex> g(mu);
         samples.push_back(s);
     }
@@ -254,6 +255,12 @@ Plan Gen(uint64_t seed, Tier tier)
     const bool threads = rng.chance(2, 5);
     p.knobs["on_disk"] = 0;
     p.knobs["threads"] = threads;
+    {
+        // (own stream: the rest of the plan is unchanged by these two knobs)
+        Rng ri(mix64(seed, 0x1BD0C63));
+        p.knobs["ibd_prefix"] = ri.chance(1, 4);
+        p.knobs["ibd_exit_op"] = ri.range(1, 14);
+    }
     if (threads) {
         p.knobs["policy"] = (int64_t)rng.pick({1, 5, 2}); // 0 cooperative, 1 preemptive, 2 PCT
         p.knobs["switch_per_1024"] = (int64_t)(8 << rng.below(6)); // 8..256
@@ -346,10 +353,15 @@ struct Sim {
     size_t marker{0}; //!< immediate runner: events[marker..] belong to the node call in progress
     uint64_t n_connect{0}, n_disconnect{0}, n_add{0}, n_remove{0};
     bool after_base{false};
+    // initial-block-download phase (knob ibd_prefix): reference latch, kept on the true tip-change sequence
+    const bool ibd_mode;
+    size_t ibd_exit_step{SIZE_MAX}; //!< index in `truth` of the connection that ended initial block download
+    static constexpr int64_t IBD_MAX_TIP_AGE = 3600;
+    static constexpr int64_t IBD_CLOCK_LEAD = 1000LL * 86400;
 
     explicit Sim(Ctx& c)
         : ctx(c), ms(c, MempoolSimConfig{.check_consistency = false, .snapshots = false, .bias = "c63"}), rec(std::make_shared<Recorder>()), threaded(c.knob("threads", 0) != 0),
-          lazy(c.knob("threads", 0) != 0 && c.knob("lazy", 1) != 0)
+          lazy(c.knob("threads", 0) != 0 && c.knob("lazy", 1) != 0), ibd_mode(c.knob("ibd_prefix", 0) != 0)
     {
     }
 
@@ -384,6 +396,15 @@ struct Sim {
                 if (!s.tip.IsNull() && ParentOf(s.block, "BlockChecked(valid)") != s.tip) ctx.failf("tip-samples-not-a-path", "BlockChecked(valid) for %s while the tip is %s", Hx(s.block).c_str(), Hx(s.tip).c_str());
                 truth.push_back({true, s.block});
                 true_tip = s.block;
+                // ChainstateManager::UpdateIBDStatus(): latched off by the first tip that is at most max_tip_age behind the clock
+                // (regtest: no minimum chain work; the clock never goes back, so a disconnection cannot be the first such tip)
+                if (ibd_mode && ibd_exit_step == SIZE_MAX) {
+                    const int bi = ref().Find(s.block);
+                    if (bi >= 0 && ref().blocks[bi].time >= s.now - IBD_MAX_TIP_AGE) {
+                        ibd_exit_step = truth.size() - 1;
+                        ctx.probe("ibd_ended_by_block");
+                    }
+                }
                 break;
             }
             case Sample::TIP_CHANGE: DescendTo(s.tip, "ActiveTipChange"); break;
@@ -444,10 +465,17 @@ struct Sim {
                 // fold: connect(B) only when B.hashPrevBlock is the folded tip
                 if (e.block->hashPrevBlock != ftip) ctx.failf("block-connected-not-on-folded-tip", "BlockConnected(%s, h=%d) builds on %s but the notifications so far fold to tip %s", Hx(h).c_str(), ref().blocks[idx].height, Hx(e.block->hashPrevBlock).c_str(), Hx(ftip).c_str());
                 // interface contract: MempoolTransactionsRemovedForBlock(B) is fired before BlockConnected(B) (the node is never in IBD here, except possibly for genesis)
-                if (!announced.empty()) {
+                const bool ibd_silent = ibd_mode && fold.size() < ibd_exit_step && (announced.empty() || announced.front() != h);
+                if (!announced.empty() && !ibd_silent) {
                     if (announced.front() != h) ctx.failf("block-connected-out-of-order-with-removed-for-block", "BlockConnected(%s) while MempoolTransactionsRemovedForBlock announced %s first", Hx(h).c_str(), Hx(announced.front()).c_str());
                     if (announced.size() >= 2) ctx.probe("multi_block_connect_step");
                     announced.pop_front();
+                } else if (ibd_silent) {
+                    // initial block download: removeForBlock() ran, MempoolTransactionsRemovedForBlock is documented not to fire; the
+                    // block that ends it (truth step ibd_exit_step) and every later one must be announced again
+                    for (size_t k = 1; k < e.block->vtx.size(); ++k)
+                        if (fmempool.erase(e.block->vtx[k]->GetHash())) ctx.probe("ibd_block_confirmed_mempool_tx_silently");
+                    ctx.probe("ibd_connect_without_removed_for_block");
                 } else if (ref().blocks[idx].height > 0) {
                     ctx.failf("block-connected-without-removed-for-block", "BlockConnected(%s, h=%d) was not preceded by its MempoolTransactionsRemovedForBlock", Hx(h).c_str(), ref().blocks[idx].height);
                 }
@@ -484,7 +512,10 @@ struct Sim {
                 if ((int)e.height != B.height) ctx.failf("removed-for-block-wrong-height", "MempoolTransactionsRemovedForBlock(%s) says height %u, generated height %d", Hx(h).c_str(), e.height, B.height);
                 // order: it describes the connection of B on top of what the earlier notifications describe
                 const uint256& on = announced.empty() ? ftip : announced.back();
-                if (e.block->hashPrevBlock != on) ctx.failf("removed-for-block-out-of-order", "MempoolTransactionsRemovedForBlock(%s, h=%d) builds on %s but the notifications so far describe tip %s", Hx(h).c_str(), B.height, Hx(e.block->hashPrevBlock).c_str(), Hx(on).c_str());
+                // (one ActivateBestChainStep may connect silent initial-block-download blocks and then the block that ends it: the
+                // announcement of the latter is delivered before the BlockConnected of the former)
+                const bool silent_pending = ibd_mode && fold.size() + announced.size() < ibd_exit_step;
+                if (e.block->hashPrevBlock != on && !silent_pending) ctx.failf("removed-for-block-out-of-order", "MempoolTransactionsRemovedForBlock(%s, h=%d) builds on %s but the notifications so far describe tip %s", Hx(h).c_str(), B.height, Hx(e.block->hashPrevBlock).c_str(), Hx(on).c_str());
                 if (e.has_real_tip && e.real_tip != h) ctx.failf("removed-for-block-real-tip-mismatch", "MempoolTransactionsRemovedForBlock(%s) ran (immediate runner) while the real tip was %s", Hx(h).c_str(), Hx(e.real_tip).c_str());
                 announced.push_back(h);
                 // exactly the block's transactions that were in the (folded) mempool
@@ -505,6 +536,7 @@ struct Sim {
                 }
                 for (auto& t : got) fmempool.erase(t);
                 if (!got.empty()) ctx.probe("ev_removed_for_block_nonempty");
+                if (ibd_mode && announced.size() == 1 && fold.size() == ibd_exit_step && !got.empty()) ctx.probe("ibd_exit_block_reports_mempool_txs");
                 ctx.evf("ev B %s h=%u n=%zu", Hx(h).c_str(), e.height, got.size());
                 break;
             }
@@ -758,13 +790,16 @@ struct Sim {
             lim.cluster_size_vbytes = ctx.knob("cluster_kvb", 101) * 1000;
             o.limits = lim;
             o.listeners.push_back(rec);
+            if (ibd_mode) o.max_tip_age = std::chrono::seconds{IBD_MAX_TIP_AGE};
             if (threaded) {
                 o.immediate_signals = false;
                 o.make_runner = &MakeRunner;
             }
         };
         ms.after_submit = [this](const SubmitRecord& r) { AfterSubmit(r); };
+        if (ibd_mode) ms.cs.start_shift = IBD_CLOCK_LEAD; // every block lags the clock by ~1000 days until the 'time = now' block
         ms.cs.Setup();
+        if (ibd_mode) ms.cs.start_time = ms.cs.now;
     }
 
     void EndOfOp(const char* where)
@@ -780,7 +815,10 @@ struct Sim {
         Setup();
         EndOfOp("after base chain");
         after_base = true;
+        const int64_t ibd_exit_op = ctx.knob("ibd_exit_op", 8);
+        int64_t op_no = 0;
         for (const Op& op : ctx.plan.ops) {
+            if (ibd_mode && op_no++ == ibd_exit_op) ms.cs.next_block_time_now = true;
             if (!threaded) marker = rec->events.size(); // (immediate runner: nothing is pending)
             if (op.kind == X_DRAIN) {
                 rec->SampleNow(Sample::CALL_END);
